@@ -8,9 +8,10 @@ namespace AIToolbox::MDP {
             rand_(Seeder::getSeed()) {}
 
     Model::Model(const size_t s, const size_t a, const double discount) :
-            S(s), A(a), discount_(discount), transitions_(A, Matrix2D(S, S)),
+            S(s), A(a), transitions_(A, Matrix2D(S, S)),
             rewards_(S, A), rand_(Seeder::getSeed())
     {
+        setDiscount(discount);
         // Make transition matrix true probability
         for ( size_t a = 0; a < A; ++a )
             transitions_[a].setIdentity();
